@@ -1046,6 +1046,85 @@ func genCase(cfg *RunCfg) *reqCase {
 	return c
 }
 
+// genNegotiation enumerates the reply-codec negotiation uniformly: request codec R, the caller's
+// X-Accept-Body-Codec wish A (none, every registered codec, an unregistered one) and the
+// backend handler's choice H (left to the default rule, or ctx.SetBodyCodec of any codec).
+func genNegotiation(cfg *RunCfg) *reqCase {
+	r := cfg.Rng
+	regs := []byte{'j', 's', 'p', 'f', 'x'}
+	c := &reqCase{sc: &script{}, fail: "none"}
+	R := regs[r.Intn(len(regs))]
+	c.codec = R
+	c.route, c.method = "raw", "/b/raw"
+	c.body = RandBytes(r, r.Intn(40))
+	if r.Intn(3) == 0 && (R == 'j' || R == 's') {
+		c.route, c.method = "str", "/b/str"
+		txt := genText(cfg, 20)
+		if R == 'j' {
+			c.body, _ = json.Marshal(txt)
+		} else {
+			c.body = []byte(txt)
+		}
+	}
+	n := r.Intn(3)
+	for i := 0; i < n; i++ {
+		c.meta = append(c.meta, [2]string{keyPool[r.Intn(len(keyPool))], genText(cfg, 8)})
+	}
+	accClass := "none"
+	if k := r.Intn(7); k < 5 {
+		A := regs[k]
+		at := r.Intn(len(c.meta) + 1)
+		c.meta = append(c.meta[:at], append([][2]string{{erpc.MetaAcceptBodyCodec, fmt.Sprint(int(A))}}, c.meta[at:]...)...)
+		accClass = "other"
+		if A == R {
+			accClass = "same-as-request"
+		}
+	} else if k == 5 {
+		c.meta = append(c.meta, [2]string{erpc.MetaAcceptBodyCodec, "122"})
+		accClass = "unregistered"
+	}
+	hClass := "default"
+	if k := r.Intn(6); k < 5 {
+		c.sc.setCodec = regs[k]
+		hClass = "third"
+		if c.sc.setCodec == R {
+			hClass = "request-codec"
+		} else if a, ok := parseAccept(firstValue(c.meta, erpc.MetaAcceptBodyCodec)); ok && a == c.sc.setCodec {
+			hClass = "accept-codec"
+		}
+	}
+	if r.Intn(8) == 0 {
+		genStatus(cfg, c.sc)
+	}
+	switch r.Intn(3) {
+	case 0:
+		if c.route == "raw" {
+			c.sc.reply = nil
+		} else {
+			c.sc.reply = RandBytes(r, r.Intn(30))
+		}
+	case 1:
+		c.sc.reply = RandBytes(r, r.Intn(30))
+	default:
+		c.sc.reply = genText(cfg, 30)
+	}
+	if r.Intn(3) == 0 {
+		c.sc.ops = append(c.sc.ops, metaOp{set: r.Intn(2) == 0, k: keyPool[r.Intn(4)], v: genText(cfg, 6)})
+	}
+	c.classes = append(c.classes, "route:"+c.route, "negotiation:accept-"+accClass+"/handler-"+hClass,
+		fmt.Sprintf("codec:%#02x", c.codec), "mtype:call")
+	return c
+}
+
+func firstValue(m [][2]string, k string) string {
+	for _, kv := range m {
+		if kv[0] == k {
+			return kv[1]
+		}
+	}
+	return ""
+}
+
 // ---------------------------------------------------------------------------------------
 // main loop
 // ---------------------------------------------------------------------------------------
@@ -1069,13 +1148,18 @@ func runC19(cfg *RunCfg) {
 	Quiet()
 	w := newWorld()
 	st := NewStats("C19", cfg)
-	st.Rule = "pairs = one generated request sent directly to the backend and through the proxy; classes route{raw,str,obj,pb,none,own} x body x codec id{j,s,p,f,unregistered} x request metadata (repeated keys, X-Real-IP absent/present/empty/twice, X-Accept-Body-Codec) x backend status{ok,custom,4xx,5xx,edge,conn-class} x reply{echo,raw,string,obj,pb} x reply codec override x reply metadata ops x mtype{call,push} x failure{none,closed-local,closed-remote,dial,during}; distinct by full rendered input; non-trivial = forwarded route (not own) with non-empty body or metadata or non-OK status or failure"
+	st.Rule = "pairs = one generated request sent directly to the backend and through the proxy; classes route{raw,str,obj,pb,none,own} x body x codec id{j,s,p,f,unregistered} x request metadata (repeated keys, X-Real-IP absent/present/empty/twice, X-Accept-Body-Codec) ; 15% of the pairs enumerate reply-codec negotiation uniformly: request codec{j,s,p,f,x} x X-Accept-Body-Codec{none, each registered codec, unregistered} x handler{default rule, SetBodyCodec of each codec} x backend status{ok,custom,4xx,5xx,edge,conn-class} x reply{echo,raw,string,obj,pb} x reply codec override x reply metadata ops x mtype{call,push} x failure{none,closed-local,closed-remote,dial,during}; distinct by full rendered input; non-trivial = forwarded route (not own) with non-empty body or metadata or non-OK status or failure"
 	cw := NewCaseWriter(cfg)
 	distinct := DistinctSet{}
 	sent0 := sentinelSnapshot()
 
 	for i := 0; i < cfg.N; i++ {
-		c := genCase(cfg)
+		var c *reqCase
+		if cfg.Rng.Intn(100) < 15 {
+			c = genNegotiation(cfg)
+		} else {
+			c = genCase(cfg)
+		}
 		// library tables
 		canon, derr, dok := libDecode(c.route, c.codec, c.body)
 		if c.route == "none" || c.route == "own" {
